@@ -146,6 +146,7 @@ def run(ctx, chk):
     check_decode_lookup(ctx, chk)
     check_nvec(ctx, chk)
     check_mask(ctx, chk)
+    check_definition_maps(ctx, chk)
     check_order(ctx, chk)
     chk.note("documentation disagreement (informational): the class docstring gives parameter 5 as "
              "[0, #processes] with 0=None while the code uses #processes values without a None slot; "
@@ -177,8 +178,19 @@ def check_flat(ctx, chk):
     LAL = f"nasim.envs.action:load_action_list({init.params[1]})"
     ok = len(sup) == 1 and len(st) == 1 and cn.show(st[0].data["value"]) == LAL and \
         [cn.show(a) for a in sup[0].data["args"]] == [f"len({LAL})"]
-    chk.ob("C11.size", "FlatActionSpace: actions = load_action_list(scenario), n = len(actions)", ok,
-           str([cn.show(a) for ev in sup for a in ev.data["args"]]), ci.module.path)
+    lal_calls = [ev for ev in s.events if ev.kind == "call"
+                 and ev.data["fname"] == "nasim.envs.action:load_action_list"]
+    if not ok and lal_calls and all(len(ev.data["args"]) + len(ev.data.get("kwargs", ())) > 1
+                                    for ev in lal_calls):
+        # the list is requested with an argument the documented load_action_list(scenario) does
+        # not have: what that call returns is outside what the enumeration rule establishes
+        chk.undecided("C11.size", "FlatActionSpace: actions = load_action_list(scenario), n = "
+                      "len(actions)", "load_action_list is called with additional argument(s): "
+                      + str([cn.show(a)[:60] for a in lal_calls[0].data["args"]]), ci.module.path)
+    else:
+        chk.ob("C11.size", "FlatActionSpace: actions = load_action_list(scenario), n = "
+               "len(actions)", ok,
+               str([cn.show(a) for ev in sup for a in ev.data["args"]]), ci.module.path)
     ga = ci.methods["get_action"]
     ip = Interp(repo, ctx.types, param_types={ga.params[0]: "FlatActionSpace"})
     s = ip.run(ga)
@@ -429,6 +441,42 @@ def check_nvec(ctx, chk):
            "(every component in range of what it indexes)", ok, detail, ci.module.path)
 
 
+def check_definition_maps(ctx, chk):
+    """the {target: {os: definition}} maps the parameterised space decodes through contain every
+    definition's own (target, os) pair: the entry is stored unconditionally, or exactly when that
+    pair is not in the map yet (keep-first) - never depending on *other* entries of the map"""
+    from sa.canon import f_subst, f_atoms
+    sc = ctx.repo.cls("nasim.scenarios.scenario", "Scenario")
+    for prop, what in (("exploit_map", "exploit"), ("privesc_map", "escalation")):
+        m = sc.methods.get(prop)
+        desc = (f"Scenario.{prop}: every {what} definition is entered under its own (target, os) "
+                "pair unless that pair is taken")
+        if m is None:
+            chk.undecided("C11.decode", desc, f"Scenario.{prop} not found")
+            continue
+        ip = Interp(ctx.repo, ctx.types, param_types={m.params[0]: "Scenario"})
+        s = ip.run(m)
+        cn = Canon(ip, ctx.layout)
+        sts = [ev for ev in s.events if ev.kind == "store" and ev.data["target"] == "sub"
+               and ev.data["value"][0] == "dictobj" and ip.heap[ev.data["value"][1]]["items"]
+               and any(c[0] == "inloop" for c in ev.pc)]
+        if len(sts) != 1:
+            chk.undecided("C11.decode", desc, f"{len(sts)} definition store(s) inside a loop: only "
+                          "the single-store form is decoded", sc.module.path)
+            continue
+        ev = sts[0]
+        F = cn.conj(tuple(c for c in ev.pc if c[0] not in ("inloop", "fact")))
+        base = cn.show(ev.data["base"])
+        fresh = f"{cn.show(ev.data['idx'])} in {base}"
+        rest = f_subst(F, lambda a: ("false",) if a == fresh else None)
+        others = sorted(a for a in f_atoms(rest) if a.endswith(" in " + base))
+        ok = not others and bool(f_equiv(F, rest) or f_equiv(F, f_and([f_not(A(fresh)), rest])))
+        chk.ob("C11.decode", desc, ok,
+               "the entry is also skipped depending on other entries of the same target's map: "
+               + "; ".join(o[:40] + " ... in the target's map" for o in others) if others
+               else "the store condition does not have the keep-first form", ev.loc, firm=bool(others))
+
+
 def check_mask(ctx, chk):
     repo = ctx.repo
     fi = repo.func(ENV_MOD, "NASimEnv.get_action_mask")
@@ -472,6 +520,13 @@ def check_mask(ctx, chk):
            f"length {n_s}, filled over {it} at index {idx}", fi.module.path)
     chk.ob("C11.mask", "mask[i] = 1 exactly when get_action(i).target is discovered in the current "
            "state", one and idx == w_idx and f_equiv(cond, w_cond), detail, fi.module.path)
+    # "for every i": the loop that fills the mask visits every index - no break, no return inside
+    early = [ev for ev in s.events if ev.kind in ("break", "return")
+             and any(c[0] == "inloop" for c in ev.pc)]
+    early += [1 for pc, _ in s.returns if any(c[0] == "inloop" for c in pc)]
+    chk.ob("C11.mask", "the loop that fills the mask visits every action (no break / return inside "
+           "it)", not early, f"{len(early)} early exit(s) inside the loop: entries after the first "
+           "one that takes it stay 0" if early else "", fi.module.path, firm=True)
 
 
 def mask_semantics(ip, cn, s):
